@@ -633,6 +633,14 @@ char *macros_expand_params(
     if (ch == '\t') { ch = ' '; }
     if (ch == '\r') { continue; }
 
+    // Each pass of this loop stores at most two characters and the
+    // terminator is added after it.
+    if (ptr >= (int)sizeof(params) - 3 || count >= 255)
+    {
+      print_error(asm_context, "Macro parameters too long");
+      return nullptr;
+    }
+
     // skip whitespace immediately after opening parenthesis or a comma
     if ((ch == ' ' || ch == '\t') && (ptr == 0 || params[ptr - 1] == 0)) { continue; }
 
@@ -698,6 +706,12 @@ for (int n = 0; n < count; n++)
     if (*define == 1)
     {
       define++;
+
+      if (ptr + strlen(params + params_ptr[((int)*define) - 1]) >= PARAM_STACK_LEN)
+      {
+        print_error_internal(nullptr, __FILE__, __LINE__);
+        exit(1);
+      }
 
       strcpy(asm_context->def_param_stack_data + ptr, params + params_ptr[((int)*define) - 1]);
 
